@@ -120,12 +120,18 @@ func knownBoundOf(c *Compiler, v ssa.Value) uint64 {
 // region, with the exit code of the region's kind.
 //@ func (c *Compiler) boundsCheckInMemory(memLen, offset, size ssa.Value)
 //@   requires c.ssaBuilder != nil
+//@   requires[operands-are-zero-extended-32-bit-values] ssa.IsZeroExtended32(offset) && ssa.IsZeroExtended32(size)
+//@   ensures[zero-extension-marks-kept] verif_ghost_map_kept("M:uext32", "M:uext32") && verif_ghost_map_kept("M:uext32", "M:uextArg")
 //@   ensures[one-check-of-offset-plus-size-against-the-length] oobChecks() == old(oobChecks()) + 1 && gg("oobCode") == int(wazevoapi.ExitCodeMemoryOutOfBounds) && gg("oobLen") == int(memLen) && gg("oobAddX") == int(offset) && gg("oobAddY") == int(size)
+//@   modifies ghost("*")
 //@   nosafety keep-pre
 
 //@ func (c *Compiler) boundsCheckInTable(tableIndex uint32, offset, size ssa.Value) (tableInstancePtr ssa.Value)
 //@   requires c.ssaBuilder != nil
+//@   requires[operands-are-zero-extended-32-bit-values] ssa.IsZeroExtended32(offset) && ssa.IsZeroExtended32(size)
+//@   ensures[zero-extension-marks-kept] verif_ghost_map_kept("M:uext32", "M:uext32") && verif_ghost_map_kept("M:uext32", "M:uextArg")
 //@   ensures[one-check-of-offset-plus-size] oobChecks() == old(oobChecks()) + 1 && gg("oobCode") == int(wazevoapi.ExitCodeTableOutOfBounds) && gg("oobAddX") == int(offset) && gg("oobAddY") == int(size)
+//@   modifies ghost("*")
 //@   nosafety keep-pre
 
 // ---- C07: the exit code check the compiler emits (at loop headers and before tail calls): an indirect
@@ -198,4 +204,24 @@ func exitChecks() int { return verif_ghost_int("exitChecks") }
 //@   requires c.ssaBuilder != nil && c.loweringState.pc >= 0 && c.loweringState.pc < len(c.wasmFunctionBody) && c.wasmFunctionBody[c.loweringState.pc] == wasm.OpcodeLoop
 //@   requires c.ensureTermination && !c.loweringState.unreachable && exitChecks() >= 0 && exitChecks() < 1<<40
 //@   ensures[exit-code-check-at-the-loop-header] exitChecks() == old(exitChecks()) + 1
+//@   nosafety keep-pre
+
+//@ prop C02
+// The bulk memory / table instructions (0xFC prefix): every bounds check helper is called with
+// zero-extended 32-bit operands (the requires of boundsCheckInMemory / boundsCheckInTable, checked at
+// each call site in every arm of the misc switch).
+// (block bookkeeping of the builder: assumed to insert no instruction and to leave the ghost registers alone)
+//@ iface (b ssa.Builder) SetCurrentBlock(bb ssa.BasicBlock)
+//@   modifies nothing
+//@ iface (b ssa.Builder) Seal(blk ssa.BasicBlock)
+//@   modifies nothing
+//@ iface (bb ssa.BasicBlock) ReturnBlock() bool
+//@   modifies nothing
+//@ iface (bb ssa.BasicBlock) AddParam(b ssa.Builder, t ssa.Type) ssa.Value
+//@   modifies nothing
+
+//@ case misc (c *Compiler) lowerCurrentOpcode()
+//@   requires c.ssaBuilder != nil && c.loweringState.pc >= 0 && c.loweringState.pc < len(c.wasmFunctionBody) && c.wasmFunctionBody[c.loweringState.pc] == wasm.OpcodeMiscPrefix
+//@   requires !c.loweringState.unreachable && len(c.loweringState.values) >= 3
+//@   ensures true
 //@   nosafety keep-pre
